@@ -541,6 +541,55 @@ Fixpoint read_many_into_opt {A} (rd : stream -> A -> option (A * stream)) (n : n
            end
   end.
 
+(* ------------------------------------------------------------------ Integer I/O without the GMP C++ streams *)
+(* gmp++_int_io.C, the branch selected by __GIVARO_GMP_NO_CXX (or __PATHCC__).
+   Integer::print: mpz_get_str(str, 10, ..); o << str  (the stream's basefield is ignored): print_Z.
+   operator>>:  static int64_t base[] = {10, 100, .., 10^9};   (the table is a PARAMETER here: the check reads it from the source)
+     if (!inp) return inp;  inp >> std::ws;  a = 0;  inp.get(ch);
+     if (ch is no sign and no digit) { message on cerr; return inp; }            -- a = 0, ch consumed, no failbit
+     '+' : ;  '-' : sign = -1;  digit : inp.putback(ch);     inp >> std::ws;
+     while (noend) { counter = 0;
+       while (noend && counter < 9) { inp.get(ch); if (inp.eof()) noend = 0; else if (digit) Tmp[counter++] = ch; else { noend = 0; inp.putback(ch); } }
+       if (counter > 0) { l = atol(Tmp); a = a * base[counter-1] + l; } }
+     if (sign == -1) a = -a;
+   When the first get() fails (nothing but white space, or the stream is not good) ch is never assigned and then compared:
+   undefined, None. *)
+Definition ws_skip (s : stream) : stream :=             (* inp >> std::ws *)
+  if negb (good s) then setfail s
+  else match drop_ws (rest s) with [] => mkS [] true false | l => mkS l false false end.
+Definition nocxx_flush (base : list Z) (a : Z) (cnt : nat) (tmp : Z) : Z :=
+  match cnt with O => a | S k => a * nth k base 0 + tmp end.
+(* the two nested loops as one pass over the characters: a, the number of digits in the current packet, its value;
+   result: a, the characters left, "the last get hit the end of the input" *)
+Fixpoint nocxx_digits (base : list Z) (l : list Z) (a : Z) (cnt : nat) (tmp : Z) : Z * list Z * bool :=
+  match l with
+  | [] => (nocxx_flush base a cnt tmp, [], true)
+  | c :: l' =>
+      if isdigit c then
+        let tmp' := 10 * tmp + (c - 48) in
+        if Nat.eqb (S cnt) 9 then nocxx_digits base l' (nocxx_flush base a 9 tmp') 0 0
+        else nocxx_digits base l' a (S cnt) tmp'
+      else (nocxx_flush base a cnt tmp, c :: l', false)
+  end.
+Definition Integer_in_nocxx (base : list Z) (s : stream) (old : Z) : option (Z * stream) :=
+  if failb s then Some (old, s)
+  else
+    let s1 := ws_skip s in
+    match sget s1 with
+    | (None, _) => None
+    | (Some ch, s2) =>
+        if negb ((ch =? 43) || (ch =? 45) || isdigit ch) then Some (0, s2)
+        else
+          let s3 := if isdigit ch then sputback ch s2 else s2 in
+          let s4 := ws_skip s3 in
+          if negb (good s4) then Some (0, mkS [] true true)          (* the first get of the digit loop fails *)
+          else
+            let '(a, l, hit) := nocxx_digits base (rest s4) 0 0 0 in
+            let v := if ch =? 45 then - a else a in
+            Some (v, if hit then mkS [] true true else mkS l false false)
+    end.
+Definition pow10_table : list Z := [10; 100; 1000; 10000; 100000; 1000000; 10000000; 100000000; 1000000000].
+
 (* ------------------------------------------------------------------ Z-level entry points for extraction *)
 Definition res3 (r : Z * stream) := (fst r, rest (snd r), eofb (snd r), failb (snd r)).
 Definition x_int_read (l : list Z) (old : Z) := res3 (Integer_in (from_chars l) old).
@@ -626,3 +675,20 @@ Definition x_poly_wr0 (var : list Z) (bal word : bool) (lo hi p : Z) (R old : li
       | Some (P, s) => Some (P, rest s, eofb s, failb s)
       | None => None
       end).
+
+(* the reader of the build without the GMP C++ streams, with the table of the source; None = undefined *)
+Definition x_int_read_nocxx (base : list Z) (l : list Z) (old : Z) :=
+  match Integer_in_nocxx base (from_chars l) old with
+  | Some (v, s) => Some (v, rest s, eofb s, failb s)
+  | None => None
+  end.
+Fixpoint read_many_nocxx (base : list Z) (n : nat) (s : stream) (cur : Z) : list (Z * stream) * bool :=
+  match n with
+  | O => ([], false)
+  | S m => match Integer_in_nocxx base s cur with
+           | None => ([], true)
+           | Some (x, s1) => let '(t, u) := read_many_nocxx base m s1 x in ((x, s1) :: t, u)
+           end
+  end.
+Definition x_int_seqd_nocxx (base : list Z) (old : Z) (n : nat) (l : list Z) :=
+  let '(t, u) := read_many_nocxx base n (from_chars l) old in (tr4 t, u).
